@@ -431,22 +431,25 @@ Lemma charge_fee_spec required offered payer module s s' :
   match required with
   | None => s' = s
   | Some req =>
-      0 < c_amount req /\
-      (forall x y, bank_bal s' x y = bank_bal s x y - at_key (payer, c_denom req) (x, y) (c_amount req)) /\
-      (forall y, bank_sup s' y = bank_sup s y - at_key (c_denom req) y (c_amount req))
+      if 0 <? c_amount req then
+        (forall x y, bank_bal s' x y = bank_bal s x y - at_key (payer, c_denom req) (x, y) (c_amount req)) /\
+        (forall y, bank_sup s' y = bank_sup s y - at_key (c_denom req) y (c_amount req))
+      else s' = s      (* a stored zero fee charges nothing *)
   end.
 Proof.
   unfold charge_fee. destruct required as [req|].
   2:{ intros H; inversion H; subst. split; [apply bank_only_refl | reflexivity]. }
+  destruct (0 <? c_amount req) eqn:Epos; cbn [negb].
+  2:{ intros H; inversion H; subst. split; [apply bank_only_refl | reflexivity]. }
   destruct offered as [off|]; [|discriminate].
   destruct (negb (bytes_eqb _ _)); [discriminate|].
   destruct (negb (coin_gte off req)); [discriminate|].
-  destruct (_ <? _); [discriminate|].
+  destruct (bank_bal s payer (c_denom req) <? c_amount req); [discriminate|].
   intros H. lstep H as s1 Hs1. rewrite (coin_eta req) in Hs1, H.
   apply send_coins1 in Hs1. destruct Hs1 as (B1 & Hpos & Hle & Hsup1 & Hbal1).
   apply burn_coins1 in H. destruct H as (B2 & _ & _ & Hbal2 & Hsup2).
   split; [eapply bank_only_trans; eassumption|]. cbn [c_denom c_amount coin1].
-  split; [exact Hpos|]. split.
+  split.
   - intros x y. rewrite Hbal2, Hbal1. lia.
   - intros y. rewrite Hsup2. f_equal. unfold bank_sup. rewrite Hsup1. reflexivity.
 Qed.
